@@ -287,6 +287,10 @@ func (g *pGen) stmt(depth int) []pUnit {
 		if g.r.Chance(1, 3) && src != "mp" {
 			g.features["break-continue"] = true
 			out = append(out, tag("<%", false, "if", "(", kv, "==", "1", ")", "{"), tag("<%", true, pick(g.r, []string{"continue", "break"})), tag("<%", false, "}"))
+		} else if g.r.Chance(1, 4) && src != "mp" {
+			// ... or the same inside the block of a block helper
+			g.features["break-continue-in-helper-block"] = true
+			out = append(out, tag("<%=", false, "cap", "(", ")", "{"), pUnit{text: "h"}, tag("<%", false, "if", "(", kv, "==", "1", ")", "{"), tag("<%", true, pick(g.r, []string{"continue", "break"})), tag("<%", false, "}"), pUnit{text: "b"}, tag("<%", false, "}"))
 		}
 		if src == "mp" {
 			// map bodies must be order-insensitive: literal text only
